@@ -371,11 +371,13 @@ func idSources(e *env, gen func() (uint32, error)) (*idSrc, bool) {
 	}
 	for i := range src.ds {
 		changed := false
-		for _, mask := range []byte{0xFF, 0x55} {
+		// perturbations that differ from byte to byte: a uniform mask cancels in any value that FOLDS the draw
+		// (id = hi XOR lo of eight drawn bytes)
+		for _, mask := range []byte{0xFF, 0x55, 0x01} {
 			e.load(cCounter)
 			b := bytes.Clone(src.bytes[i])
 			for j := range b {
-				b[j] ^= mask
+				b[j] ^= perturbByte(mask, j)
 			}
 			e.tp.Answer(i, b)
 			id, err := gen()
@@ -388,6 +390,16 @@ func idSources(e *env, gen func() (uint32, error)) (*idSrc, bool) {
 		}
 	}
 	return src, true
+}
+
+// perturbByte is the XOR applied to byte j of a perturbed draw: never zero, different for neighbouring bytes and for
+// bytes 4 / 8 / 16 / 32 positions apart (so that XOR-folding halves, quarters ... of a draw cannot cancel it).
+func perturbByte(mask byte, j int) byte {
+	v := mask ^ byte(j*29+j/4*7+j/8*13+j/16*17+j/32*19)
+	if v == 0 {
+		v = mask | 0x80
+	}
+	return v
 }
 
 // ---------------------------------------------------------------------------------------------------
@@ -820,7 +832,7 @@ func keygenSection(x *h.X) {
 			e.load(cCounter)
 			b := e.tp.Bytes(dd.Off, dd.N)
 			for j := range b {
-				b[j] ^= mask
+				b[j] ^= perturbByte(mask, j) // position dependent: does not cancel in folded values
 			}
 			e.tp.Answer(i, b)
 			g, ok := generate(e, entry, params, kt, desc+" (perturbed draw)")
